@@ -1,64 +1,154 @@
-(* C19 — PIN -> rectangular TSV conversion.  Statements only; proofs are in Proofs/PinTsvP.v. *)
+(* C19 — PIN -> rectangular TSV conversion.  Statements only; proofs are in Proofs/PinTsvP.v.
+
+   Every theorem is stated for an arbitrary column separator [sepc] (sep_column, one character)
+   and an arbitrary protein separator [sepp] (sep_protein, a string: several characters or none;
+   [joins sepp l] is Python's sepp.join(l)).  Side conditions:
+     - the fields contain neither sepc nor NL (part of [wf sepc p]); file theorems need sepc <> NL;
+     - the first/last character of each line survives strip() (part of [wf]);
+     - the first PSM line does not start with "DefaultDirection" (part of [wf], stated on the line);
+     - for the OUTPUT to be valid / a fixed point additionally [out_ok sepc sepp p]: sepp contains
+       neither sepc nor NL and the converted first PSM line does not start with "DefaultDirection".
+   Nothing is left for the default separators only; the default instances (convert_file, is_valid of
+   Model/Fs.v) are corollaries at the end. *)
 From Mokaverif Require Import Model.Base Model.PinTsv Proofs.PinTsvP.
 Open Scope Z_scope.
 
-(* every non-protein field unchanged, proteins joined, wherever the protein column stands *)
-Theorem C19_line : forall (pre prots post : list str) idx ncol,
-  Forall (fun f => ~ In TAB f) (pre ++ prots ++ post) ->
+(* every non-protein field unchanged, proteins joined by the requested separator, wherever the
+   protein column stands *)
+Theorem C19_line : forall sepc sepp (pre prots post : list str) idx ncol,
+  Forall (fun f => ~ In sepc f) (pre ++ prots ++ post) ->
   length pre = idx -> prots <> [] -> ncol = (idx + 1 + length post)%nat ->
-  convert_line (join TAB (pre ++ prots ++ post)) idx ncol
-  = join TAB (pre ++ [join COLON prots] ++ post).
+  convert_line_sep sepc sepp (join sepc (pre ++ prots ++ post)) idx ncol
+  = join sepc (pre ++ [joins sepp prots] ++ post).
 Proof. exact convert_line_ok. Qed.
 Print Assumptions C19_line.
 
-(* same header, one line per PSM in order, DefaultDirection dropped, final newline immaterial *)
-Theorem C19_file : forall final_nl p, wf p ->
-  convert_file (render_pin final_nl p) = Ok (render_tsv p).
+(* same header, one line per PSM in order (the first one included), DefaultDirection dropped,
+   final newline immaterial *)
+Theorem C19_file : forall sepc sepp final_nl p, sepc <> NL -> wf sepc p ->
+  convert_file_sep sepc sepp (render_pin sepc final_nl p) = Ok (render_tsv sepc sepp p).
 Proof. exact convert_file_ok. Qed.
 Print Assumptions C19_file.
 
-Theorem C19_valid_out : forall p, wf p -> is_valid (render_tsv p) = Ok true.
+Theorem C19_valid_out : forall sepc sepp p, sepc <> NL -> wf sepc p -> out_ok sepc sepp p ->
+  is_valid_sep sepc (render_tsv sepc sepp p) = Ok true.
 Proof. exact valid_output. Qed.
 Print Assumptions C19_valid_out.
 
-Theorem C19_idempotent : forall p, wf p -> convert_file (render_tsv p) = Ok (render_tsv p).
+Theorem C19_idempotent : forall sepc sepp p, sepc <> NL -> wf sepc p -> out_ok sepc sepp p ->
+  convert_file_sep sepc sepp (render_tsv sepc sepp p) = Ok (render_tsv sepc sepp p).
 Proof. exact convert_idempotent. Qed.
 Print Assumptions C19_idempotent.
 
-Theorem C19_valid_iff : forall txt,
+Theorem C19_valid_iff : forall sepc txt,
+  is_valid_sep sepc txt = Ok true <->
+  exists h l2 more, lines_of txt = h :: l2 :: more /\
+    prefixb DEFAULTDIRECTION l2 = false /\
+    Forall (fun l => zcount sepc l = zcount sepc h) (l2 :: more).
+Proof. exact is_valid_iff. Qed.
+Print Assumptions C19_valid_iff.
+
+(* field-level sufficient conditions for the two "DefaultDirection" clauses of wf / out_ok *)
+Theorem C19_dd_clause_line : forall sepc r,
+  ~ In sepc DEFAULTDIRECTION -> prots r <> [] ->
+  prefixb DEFAULTDIRECTION (hd [] (pre r ++ prots r)) = false ->
+  prefixb DEFAULTDIRECTION (row_line sepc r) = false.
+Proof. exact dd_clause_line. Qed.
+Print Assumptions C19_dd_clause_line.
+
+Theorem C19_dd_clause_tsv : forall sepc sepp r,
+  ~ In sepc DEFAULTDIRECTION -> prots r <> [] ->
+  prefixb DEFAULTDIRECTION (hd [] (pre r ++ prots r)) = false ->
+  (pre r <> [] \/ length (prots r) = 1%nat \/ exists c s, sepp = c :: s /\ ~ In c DEFAULTDIRECTION) ->
+  prefixb DEFAULTDIRECTION (row_tsv sepc sepp r) = false.
+Proof. exact dd_clause_tsv. Qed.
+Print Assumptions C19_dd_clause_tsv.
+
+(* the default arguments: one-character protein separator = the old [join COLON] *)
+Theorem C19_joins_single : forall c fs, joins [c] fs = join c fs.
+Proof. exact joins_single. Qed.
+Print Assumptions C19_joins_single.
+
+Theorem C19_file_default : forall final_nl p, wf TAB p ->
+  convert_file (render_pin TAB final_nl p) = Ok (render_tsv TAB [COLON] p).
+Proof. exact convert_file_default_ok. Qed.
+Print Assumptions C19_file_default.
+
+Theorem C19_valid_iff_default : forall txt,
   is_valid txt = Ok true <->
   exists h l2 more, lines_of txt = h :: l2 :: more /\
     prefixb DEFAULTDIRECTION l2 = false /\
     Forall (fun l => zcount TAB l = zcount TAB h) (l2 :: more).
-Proof. exact is_valid_iff. Qed.
-Print Assumptions C19_valid_iff.
+Proof. exact is_valid_default_iff. Qed.
+Print Assumptions C19_valid_iff_default.
+
+Theorem C19_out_ok_default : forall p, wf TAB p ->
+  match rows p with
+  | r :: _ => prefixb DEFAULTDIRECTION (hd [] (pre r ++ prots r)) = false
+  | [] => True
+  end -> out_ok TAB [COLON] p.
+Proof. exact default_out_ok. Qed.
+Print Assumptions C19_out_ok_default.
 
 (* non-vacuity: a PIN with the protein column in the middle, a DefaultDirection line,
-   rows with 2 and 1 proteins satisfies wf *)
-Definition ex_pin : pin :=
+   rows with 2 and 1 proteins satisfies wf — with TAB and with "," as column separator;
+   the FIRST PSM has several proteins *)
+Definition ex_pin_of (sepc : Z) : pin :=
   {| hdr_pre := [[105;100]]; hdr_post := [[120]];
-     dd := Some (DEFAULTDIRECTION ++ [9;45;9;45]);
+     dd := Some (DEFAULTDIRECTION ++ [sepc;45;sepc;45]);
      rows := [ {| pre := [[97]]; prots := [[80;49];[80;50]]; post := [[49]] |};
                {| pre := [[98]]; prots := [[80;51]]; post := [[50]] |} ] |}.
+Definition ex_pin : pin := ex_pin_of TAB.
+Definition COMMA : Z := 44.
+Definition BARS : str := [124;124;124].      (* "|||" *)
 
-Example C19_wf_satisfiable : wf ex_pin.
-Proof.
-  unfold wf, ex_pin, hdr, wf_row, field_ok, first_ok, last_ok; simpl.
+Ltac c19_wf :=
+  unfold wf, ex_pin, ex_pin_of, hdr, wf_row, field_ok, first_ok, last_ok; simpl;
   repeat match goal with
   | |- _ /\ _ => split
   | |- Forall _ _ => constructor
   | |- ~ _ => let H := fresh in intros H; simpl in H; intuition discriminate
   | |- _ <> _ => discriminate
   | |- _ = _ => reflexivity
+  end;
+  try (eexists _, _; split; [reflexivity|reflexivity]);
+  try (eexists _, []; split; [reflexivity|reflexivity]);
+  try (eexists _, [_;_;_;_;_;_;_;_;_;_;_;_;_;_;_;_;_;_;_]; split; [reflexivity|reflexivity]);
+  try (eexists _, [_]; split; [reflexivity|reflexivity]);
+  try (eexists _, [_;_;_;_;_;_;_]; split; [reflexivity|reflexivity]).
+
+Example C19_wf_satisfiable : wf TAB ex_pin.
+Proof. c19_wf. Qed.
+
+Example C19_wf_satisfiable_comma : wf COMMA (ex_pin_of COMMA).
+Proof. c19_wf. Qed.
+
+Example C19_out_ok_satisfiable : out_ok TAB [COLON] ex_pin /\ out_ok COMMA BARS (ex_pin_of COMMA)
+  /\ out_ok COMMA [] (ex_pin_of COMMA).
+Proof.
+  unfold out_ok. simpl.
+  repeat match goal with
+  | |- _ /\ _ => split
+  | |- ~ _ => let H := fresh in intros H; simpl in H; intuition discriminate
+  | |- _ = _ => reflexivity
   end.
-  all: try (eexists _, _; split; [reflexivity|reflexivity]).
-  all: try (eexists _, []; split; [reflexivity|reflexivity]).
-  all: try (eexists _, [_;_;_;_;_;_;_;_;_;_;_;_;_;_;_;_;_;_;_]; split; [reflexivity|reflexivity]).
-  all: try (eexists _, [_]; split; [reflexivity|reflexivity]).
-  all: try (eexists _, [_;_;_;_;_;_;_]; split; [reflexivity|reflexivity]).
 Qed.
 
 Example C19_ex_runs :
-  convert_file (render_pin false ex_pin) = Ok (render_tsv ex_pin) /\
-  render_tsv ex_pin <> render_pin true ex_pin.
+  convert_file (render_pin TAB false ex_pin) = Ok (render_tsv TAB [COLON] ex_pin) /\
+  render_tsv TAB [COLON] ex_pin <> render_pin TAB true ex_pin.
 Proof. split; [vm_compute; reflexivity | vm_compute; discriminate]. Qed.
+
+(* non-default separators: "," between columns, "|||" between proteins; the result differs from
+   what the default protein separator gives, already on the first PSM line *)
+Example C19_ex_runs_sep :
+  convert_file_sep COMMA BARS (render_pin COMMA false (ex_pin_of COMMA))
+    = Ok (render_tsv COMMA BARS (ex_pin_of COMMA)) /\
+  render_tsv COMMA BARS (ex_pin_of COMMA)
+    = [105;100;44;80;114;111;116;101;105;110;115;44;120;10;
+       97;44;80;49;124;124;124;80;50;44;49;10;
+       98;44;80;51;44;50;10] /\
+  render_tsv COMMA BARS (ex_pin_of COMMA) <> render_tsv COMMA [COLON] (ex_pin_of COMMA) /\
+  is_valid_sep COMMA (render_tsv COMMA BARS (ex_pin_of COMMA)) = Ok true /\
+  is_valid_sep COMMA (render_pin COMMA true (ex_pin_of COMMA)) = Ok false.
+Proof. repeat split; try (vm_compute; reflexivity); vm_compute; discriminate. Qed.
